@@ -5,7 +5,7 @@ ALPHABET = bytes(list(range(48, 88)) + list(range(96, 120)))
 
 # field name -> interesting raw values (sentinels and neighbours), by width-independent name
 SENTINELS = {
-    "sog": [1023, 1022, 1021, 63, 62, 0, 1], "cog": [3600, 3599, 3601, 511, 510, 4095, 0],
+    "sog": [1023, 1022, 1021, 63, 62, 0, 1, 102, 103], "cog": [3600, 3599, 3601, 511, 510, 4095, 0, 360, 359, 361],
     "heading": [511, 510, 0, 359, 360], "rot": [128, 127, 129, 0, 255, 1], "altitude": [4095, 4094, 4093, 0],
     "year": [0, 1, 9999, 16383], "month": [0, 1, 12, 15], "day": [0, 1, 31], "hour": [0, 23, 24, 31],
     "minute": [60, 59, 61, 0, 63], "second": [60, 59, 61, 0, 63], "eta_month": [0, 1, 12, 15],
